@@ -10,9 +10,10 @@
 (* every quantity is kept as a NUMERATOR over the common denominator       *)
 (* 100*n:   EffNum(s,e,n) = min(s*(n+198e), s*100n).                        *)
 (* Lazy initialisation (first call, task_loss L given):                    *)
-(*   s_i = max(0, L / (cost_i - target_i))                                 *)
-(* as implemented: +inf when cost_i = target_i (then inf * 0 = NaN in the  *)
-(* value: finding F17), 0 when cost_i < target_i.                          *)
+(*   s_i = L / (cost_i - target_i) if cost_i > target_i, else 0            *)
+(* (DerivedStrength).  The pinned tree computed max(0, L/(cost-target)),   *)
+(* i.e. +inf when cost_i = target_i and then inf * 0 = NaN in the value    *)
+(* (DerivedStrengthPinned; defect F17, repaired in the repository).        *)
 (* A strength is a record [fin |-> TRUE, v |-> Nat] or [fin |-> FALSE].    *)
 (* Variable-free operator library.                                         *)
 (***************************************************************************)
@@ -36,9 +37,13 @@ Excess(c, t) == DMax(0, c - t)
 Fin(v) == [fin |-> TRUE, v |-> v]
 Inf    == [fin |-> FALSE, v |-> 0]
 
-\* final strength derived from the task loss L at the first call (as implemented)
+\* final strength derived from the task loss L at the first call
 DerivedStrength(L, c, t) ==
     IF c > t THEN Fin(L \div (c - t))             \* callers keep L divisible by the excess
+    ELSE Fin(0)
+\* the same on the pinned tree (before the repair of F17)
+DerivedStrengthPinned(L, c, t) ==
+    IF c > t THEN Fin(L \div (c - t))
     ELSE IF c = t THEN Inf                        \* L / 0 = +inf
     ELSE Fin(0)                                   \* max(0, negative)
 DerivedExact(L, c, t) == c > t => L % (c - t) = 0
@@ -60,6 +65,19 @@ PenRedFrom(str, c, t, e, n, i) ==
          + PenRedFrom(str, c, t, e, n, i + 1)
 PenRed(str, c, t, e, n) == PenRedFrom(str, c, t, e, n, 1)
 
+\* general strengths s (integer units) when the effective strength is an integer number of
+\* units, i.e. 100 n divides EffNum (EffExact); used for call sequences in which n_epochs varies:
+\* with s = 10^4 m and n a divisor of 19800 the ramp is exact, also in float32
+EffExact(s, e, n) == EffNum(s, e, n) % (100 * n) = 0
+EffU(s, e, n)     == EffNum(s, e, n) \div (100 * n)
+RECURSIVE PenUFrom(_, _, _, _, _, _)
+PenUFrom(str, c, t, e, n, i) ==
+    IF i > Len(str) THEN 0
+    ELSE (IF str[i].fin THEN EffU(str[i].v, e, n) * Excess(c[i], t[i]) ELSE 0)
+         + PenUFrom(str, c, t, e, n, i + 1)
+PenU(str, c, t, e, n) == PenUFrom(str, c, t, e, n, 1)
+PenExact(str, e, n)   == \A i \in DOMAIN str : str[i].fin => EffExact(str[i].v, e, n)
+
 \* IEEE: inf * 0 = NaN (excess 0, or epoch 0 inside the ramp), inf * positive = inf
 PenClass(str, c, t, e) ==
     IF \E i \in DOMAIN str : ~str[i].fin /\ (Excess(c[i], t[i]) = 0 \/ e = 0) THEN "nan"
@@ -68,6 +86,25 @@ PenClass(str, c, t, e) ==
 
 AllPositive(str) == \A i \in DOMAIN str : str[i].fin /\ str[i].v > 0
 AllWithin(c, t)  == \A i \in DOMAIN c : c[i] <= t[i]
+
+(***************************************************************************)
+(* Life cycle of ONE DUCCIO object.  The only state a regulariser may keep *)
+(* between calls is the documented lazy initialisation: the final          *)
+(* strengths, fixed at the first call when they are derived from the task  *)
+(* loss.  life = [inited, str, last, cnt]; a call is [e, n, c] (epoch,     *)
+(* n_epochs, costs reported by the model at that call).                    *)
+(***************************************************************************)
+LifeNew(mode, given) ==
+    [inited |-> mode = "given", str |-> IF mode = "given" THEN given ELSE <<>>,
+     last |-> <<>>, cnt |-> 0]
+\* strengths in force for a call with costs c (lazy initialisation if still missing)
+LifeStr(life, L, c, t) ==
+    IF life.inited THEN life.str ELSE [i \in DOMAIN t |-> DerivedStrength(L, c[i], t[i])]
+LifeCall(life, L, t, call) ==
+    [inited |-> TRUE, str |-> LifeStr(life, L, call.c, t), last |-> <<call.e, call.n>>, cnt |-> life.cnt + 1]
+\* the value a FRESH regulariser with the same final strengths returns for the call:
+\* what every call of a used object must return as well (history independence)
+FreshVal(str, t, call) == PenU(str, call.c, t, call.e, call.n)
 
 \* BaseRegularizer: strength * cost
 BaseVal(s, c) == s * c
